@@ -30,7 +30,9 @@ _F_PLAIN = [0.25, 0.5, 1.5, -0.75, 3.141592653589793, 0.1, 1.0 / 3.0, 2.71828182
 _F_INTEGRAL = [2.0, -3.0, 0.0, -0.0, 1.0, 100.0, 1e15]
 _F_EXP_INT = [1e-06, 1e-05, 1e16, 1e22, -1e-07, 1e100, 1e-300, 5e-324, 1e300]
 _F_EXP_FRAC = [1.5e-07, 2.5e-05, -6.02e23, 1.7976931348623157e308, 2.2250738585072014e-308, 4.9e-320]
-_I_BIG = [2**31, 2**63, 2**64 + 1, -(2**63) - 1, 10**25, -(10**30)]
+_I_BIG = [2**31, 2**63, 2**64 + 1, -(2**63) - 1, 10**25, -(10**30), 2**53, 2**53 + 1]
+# numbers that CPython hashes alike although they differ (hash(-1) == hash(-2), hash(2**61-1) == hash(0))
+_HASH_TWINS = {-1: -2, -2: -1, -1.0: -2.0, -2.0: -1.0, 0: 2**61 - 1, 2**61 - 1: 0, 1: 2**61, 2**61: 1}
 
 
 class Chooser:
@@ -127,8 +129,11 @@ class Chooser:
         return out
 
     def small_number(self):
-        if self.r.random() < 0.6:
+        x = self.r.random()
+        if x < 0.5:
             return self.r.randint(-3, 9)
+        if x < 0.65:
+            return self.pick([-1, -2, -1, -2, 0, 1, -1.0, -2.0])
         return self.pick([0.5, 0.25, 1.5, -0.75, 2.0])
 
 
@@ -177,6 +182,7 @@ class Cfg:
     let_counts: bool = True
     macro_bias: int = 2  # a gate statement is a macro call with probability 1/(macro_bias+1)
     random_names: float = 0.15  # probability that a declared name is a random legal identifier
+    duplicates: bool = True  # sometimes repeat a statement verbatim (or with a hash-twin number)
 
 
 @dataclass
@@ -462,6 +468,24 @@ class Builder:
                     cnt = self.count() if ch.bool() else ch.int(0, 200)
                 out.append(["sub", cnt, self.block_items("seq", depth + 1, True, in_par, cfg.max_block)])
                 self.flag("subcircuit")
+            if out and cfg.duplicates and ch.int(0, 9) == 0:
+                # a textual twin right next to a statement (caches, fusing and de-duplication
+                # show only then), possibly differing in one number by a hash-colliding partner
+                import copy
+
+                twin = copy.deepcopy(out[-1])
+                if twin[0] == "g":
+                    nums = [a for a in twin[2] if a[0] == "n" and a[1] in _HASH_TWINS]
+                    if nums and ch.bool():
+                        a = ch.pick(nums)
+                        a[1] = _HASH_TWINS[a[1]]
+                    out.append(twin)
+                    self.flag("twin-statement")
+                elif twin[0] == "loop" and ctx != "par":
+                    if is_int(twin[1]) and ch.bool():
+                        twin[1] = ch.int(0, cfg.count_max)
+                    out.append(twin)
+                    self.flag("twin-statement")
         return out
 
     def block(self, depth, in_sub, in_par):
